@@ -40,7 +40,9 @@ func (p *Prog) VerifyFunc(c *Contract) (res *FuncResult) {
 	for mu, fs := range vc.guards {
 		for _, f := range fs {
 			vc.guardOf[f] = mu
+			vc.registerFieldHeap(f)
 		}
+		vc.registerFieldHeap(mu)
 	}
 	res.Script = vc.S
 	defer func() {
@@ -49,7 +51,7 @@ func (p *Prog) VerifyFunc(c *Contract) (res *FuncResult) {
 				res.Errors = append(res.Errors, "spec error: "+string(se))
 				return
 			}
-			panic(r)
+			res.Errors = append(res.Errors, fmt.Sprintf("internal error while generating VCs: %v", r))
 		}
 	}()
 	fr := vc.newFrame(fn, c, 0)
@@ -302,6 +304,34 @@ func collectHeld(e Expr, env *SpecEnv, into map[string]bool) {
 					into[mv.P.Heap+"@"+mv.P.Ref] = true
 				}
 			}()
+		}
+	}
+}
+
+// registerFieldHeap registers the sort of a field heap name "F|<pkg>.<Type>|<field>".
+func (vc *VC) registerFieldHeap(name string) {
+	if _, ok := vc.heapSorts[name]; ok {
+		return
+	}
+	parts := strings.Split(name, "|")
+	if len(parts) != 3 {
+		return
+	}
+	i := strings.LastIndex(parts[1], ".")
+	if i < 0 {
+		return
+	}
+	t, err := vc.P.ResolveType(parts[1][:i], parts[1][i+1:])
+	if err != nil {
+		return
+	}
+	st, ok := t.Underlying().(*types.Struct)
+	if !ok {
+		return
+	}
+	for k := 0; k < st.NumFields(); k++ {
+		if st.Field(k).Name() == parts[2] {
+			vc.fieldName(t, k)
 		}
 	}
 }
